@@ -431,6 +431,13 @@ class Counters(EngineBase):
                     # it must fail without disturbing the object's previous
                     # sample
                     op["deny"] = True
+                elif interval is None and rng.random() < 0.25:
+                    # the same figure asked through as_dict(); a name given
+                    # twice is still one key (and one sample)
+                    op["via_as_dict"] = rng.choice([
+                        ["cpu_percent"], ["cpu_percent", "cpu_percent"],
+                        ["name", "cpu_percent", "name", "cpu_percent"],
+                        ["cpu_percent", "pid"]])
             if interval and interval > 0:
                 # ticks that land while the call sleeps
                 nsub = rng.randrange(0, 3)
@@ -538,7 +545,11 @@ class Counters(EngineBase):
                     if op.get("deny"):
                         k.deny = {"/proc/%d/stat" % h.pid: 13}
                     try:
-                        out = ("value", h.cpu_percent(interval=interval))
+                        if op.get("via_as_dict"):
+                            out = ("value", h.as_dict(
+                                attrs=op["via_as_dict"])["cpu_percent"])
+                        else:
+                            out = ("value", h.cpu_percent(interval=interval))
                     finally:
                         k.deny = {}
             except BaseException as e:  # noqa: BLE001
